@@ -111,6 +111,7 @@ type tap struct {
 	partitioned bool             // no /halt or /tx request of this node reaches anybody
 	onSend      func(key string) // called right before a /halt or /tx request goes out (nil = nobody waits for it)
 	stall       *stallGate       // if set, the body of the next POST /tx stops after a prefix until released
+	lastHaltID  atomic.Int64     // lock id of the last POST /halt that was sent
 }
 
 // stallGate holds a forwarded commit in flight: the request header and the first bytes of the body (the
@@ -270,6 +271,9 @@ func (t *tap) RoundTrip(req *http.Request) (*http.Response, error) {
 	t.mu.Lock()
 	onSend := t.onSend
 	t.mu.Unlock()
+	if key == "POST /halt" {
+		t.lastHaltID.Store(id)
+	}
 	if onSend != nil {
 		onSend(key)
 	}
